@@ -1,26 +1,12 @@
 import Drivers.Util
 import Drivers.Version
 
-/-! Line-protocol driver: one operation per line in, one canonical result per
-    line out. `reset` lines are handled by stateful sub-drivers. -/
+/-! Line-protocol driver for the stateless unit engines. Stateful engines have
+    their own executable (`Drivers/*Main.lean`, one `lean_exe` each). -/
 
 def dispatch (ws : List String) : String :=
   match ws with
   | "ver" :: r => Drivers.Version.step r
   | _ => "bad-op"
 
-partial def loop (h : IO.FS.Stream) (out : IO.FS.Stream) : IO Unit := do
-  let line ← h.getLine
-  if line.isEmpty then return ()
-  let ws := Drivers.words line
-  if ws.isEmpty then
-    out.putStrLn ""
-  else
-    out.putStrLn (dispatch ws)
-  loop h out
-
-def main : IO Unit := do
-  let i ← IO.getStdin
-  let o ← IO.getStdout
-  loop i o
-  o.flush
+def main : IO Unit := Drivers.runLoop () (fun _ ws => ((), dispatch ws))
